@@ -59,9 +59,12 @@ def gen_cases(tier, seed):
     fam = family()
     for i, a in enumerate(fam):
         yield ('block', i, tier)
+    yield ('hist', tier)
 
 
 def describe(case):
+    if case[0] == 'hist':
+        return {'history': 'conjoin grammars that know only S,X; then only S,Y; then the full grammars (naming scheme clash)'}
     if case[0] == 'block':
         return {'g1': family()[case[1]], 'paired_with': 'every g2 of the family x naming schemes x edge orders'}
     return {'g1': case[1], 'g2': case[2], 'scheme': case[3], 'reverse_edges_in_g2': case[4], 'W_rules': (case[5], case[6])}
@@ -76,7 +79,7 @@ def names_for(scheme, side):
     return {'S': 'S', 'X': 'X', 'Y': 'Y', 'W': 'W'}
 
 
-def mk(side, spec, scheme, reverse, wrules):
+def mk(side, spec, scheme, reverse, wrules, only=None):
     import fggs
     from fggs import HRG, HRGRule, Graph, Node, Edge, EdgeLabel, NodeLabel
     T = NodeLabel('T')
@@ -85,7 +88,8 @@ def mk(side, spec, scheme, reverse, wrules):
     L = {k: EdgeLabel(nm[k], [T] * ARITY[k], is_nonterminal=True) for k in ARITY}
     g = HRG(L['S'])
     for k in ('X', 'Y', 'W'):
-        g.add_edge_label(L[k])
+        if only is None or k in only:
+            g.add_edge_label(L[k])
     if scheme == 'pair-and-suffix-taken':
         # the natural paired names and their first suffixed variants are all taken by terminals
         for a in ('S', 'X', 'Y', 'W'):
@@ -97,6 +101,8 @@ def mk(side, spec, scheme, reverse, wrules):
     plan = [('S', S_RULES[i], i) for i in spec[0]] + [('X', X_RULES[i], i) for i in spec[1]] + \
            [('Y', Y_RULES[0], 0)] + [('W', W_RULES[i], i) for i in wrules]
     for lhs, (nodes, ext, nts), idx in plan:
+        if only is not None and (lhs not in only or any(role not in only for _, _, role in nts)):
+            continue          # this grammar does not know that nonterminal at all
         r = Graph()
         for v in (reversed(nodes) if reverse else nodes):      # with reverse, g2 also inserts its nodes in the other order
             r.add_node(V[v])
@@ -185,6 +191,24 @@ def run_case(case):
     r = Res()
     if case[0] == 'pair':
         judge(case[1], case[2], case[3], case[4], case[5], case[6], case[7], r)
+        return r
+    if case[0] == 'hist':
+        # histories: two earlier conjunctions in the same process each involve only ONE of the two nonterminal pairs
+        # whose natural names coincide ("X"+"Y,Z" and "X,Y"+"Z"); then both pairs occur in one conjunction
+        from fggs import conjoin_hrgs
+        depth = bounds(case[1])['derivation_depth']
+        fam = family()
+        picks = [f for f in fam if f[1]][:: max(1, len([f for f in fam if f[1]]) // 12)][:12]
+        for a in picks:
+            for b in picks:
+                try:
+                    conjoin_hrgs(mk(1, a, 'clash', False, (0,), only={'S', 'X'}), mk(2, b, 'clash', False, (0, 1), only={'S', 'X'}))
+                    conjoin_hrgs(mk(1, a, 'clash', False, (0,), only={'S', 'Y'}), mk(2, b, 'clash', False, (0, 1), only={'S', 'Y'}))
+                except Exception as e:
+                    r.exc(e, 'history', case, ('hist', a, b))
+                    continue
+                judge(a, b, 'clash', False, (0,), (0, 1), depth, r)
+                judge(a, b, 'plain', True, (0,), (0, 1), depth, r)
         return r
     _, i, tier = case
     depth = bounds(tier)['derivation_depth']
